@@ -6,6 +6,7 @@
 //! The same functions are compiled natively into the replay driver, where `any()` reads the
 //! counterexample bytes printed by Kani, so a failure is re-executed on the real code.
 #![allow(unused)]
+extern crate alloc;
 pub mod sym;
 pub mod arith;
 pub mod cmp;
